@@ -345,8 +345,7 @@ class ConfigDriver:
         self.keys = list(self.expected['defaults'])
         if len({fingerprint_values(v) for v in self.expected.values()}) != len(VALID):
             raise HarnessError('C18: valid load kinds must have pairwise different effective values')
-        # A process that never executes a history itself and from which a fresh child is forked whenever a
-        # violating history has to be re-executed from a pristine interpreter state (see build()).
+        # bookkeeping for the pristine re-execution of violating histories (see build())
         self._confirmed = Counter()
         self._artifact_seen = False
         self.isolate = bool(isolate)
